@@ -217,8 +217,8 @@ class SubChannel:
                                                          signal_writeConnectionLost,
                                                          ])
     # local closes first
-    open_half.upon(local_close, enter=write_closed, outputs=[signal_writeConnectionLost,
-                                                             send_close])
+    open_half.upon(local_close, enter=write_closed, outputs=[send_close,
+                                                             signal_writeConnectionLost])
     write_closed.upon(local_data, enter=write_closed, outputs=[error_closed_write])
     write_closed.upon(remote_data, enter=write_closed, outputs=[signal_dataReceived])
     write_closed.upon(remote_close, enter=closed, outputs=[close_subchannel,
